@@ -163,3 +163,65 @@ def accumulations(fnode: ast.AST, N: Optional[Normalizer] = None) -> List[Accum]
         out.append(Accum(d, tgt.slice, inc, first, _nf(N, inc), s, conditional))
         seen.add(id(s))
     return out
+
+
+@dataclass
+class Grouping:
+    dict_name: str
+    key: str        # text of the group key
+    member: str     # text of what is appended to the group
+    loop: ast.For   # the loop that fills the groups
+    node: ast.AST
+
+
+def groupings(fnode: ast.AST) -> List[Grouping]:
+    """Group-by in its usual spellings, all reported as 'in loop L, member M is appended to the list under key K of D':
+        D = {k: [] for k in ...};  for ...: D[K].append(M)
+        D = {};                    for ...: D.setdefault(K, []).append(M)
+        D = defaultdict(list);     for ...: D[K].append(M)
+        D = {};                    for ...: if K not in D: D[K] = [] ... D[K].append(M)"""
+    pm = astx.parents(fnode)
+    out: List[Grouping] = []
+    for c in astx.walk_own(fnode):
+        if not (isinstance(c, ast.Call) and isinstance(c.func, ast.Attribute) and c.func.attr == "append" and len(c.args) == 1):
+            continue
+        recv = c.func.value
+        d = k = None
+        if isinstance(recv, ast.Subscript) and isinstance(recv.value, ast.Name):
+            d, k = recv.value.id, recv.slice
+            dv = astx.unique_def(fnode, d)
+            pre_keyed = isinstance(dv, ast.DictComp) and isinstance(dv.value, ast.List) and not dv.value.elts
+            dflt = isinstance(dv, ast.Call) and astx.u(dv.func).endswith("defaultdict") and dv.args and astx.u(dv.args[0]) == "list"
+            guarded = False
+            st = astx.stmt_of(c, pm)
+            par = pm.get(st)
+            for fld in ("body", "orelse"):
+                lst = getattr(par, fld, None)
+                if isinstance(lst, list) and any(x is st for x in lst):
+                    for g in lst[: [i for i, x in enumerate(lst) if x is st][0]]:
+                        if isinstance(g, ast.If) and _membership(g.test, d, astx.u(k)) is False and len(g.body) == 1 and isinstance(g.body[0], ast.Assign) \
+                                and _is_sub(g.body[0].targets[0], d, astx.u(k)) and isinstance(g.body[0].value, ast.List) and not g.body[0].value.elts:
+                            guarded = True
+            if not (pre_keyed or dflt or guarded):
+                continue
+        elif isinstance(recv, ast.Call) and isinstance(recv.func, ast.Attribute) and recv.func.attr == "setdefault" and isinstance(recv.func.value, ast.Name) \
+                and len(recv.args) == 2 and isinstance(recv.args[1], ast.List) and not recv.args[1].elts:
+            d, k = recv.func.value.id, recv.args[0]
+        else:
+            continue
+        lp = astx.enclosing(c, pm, ast.For)
+        if lp is None:
+            continue
+        out.append(Grouping(d, astx.u(k), astx.u(c.args[0]), lp, c))
+    return out
+
+
+def is_first_component_key(key: ast.AST) -> bool:
+    """sorted(..., key=...) orders by the first component only: lambda x: x[0] / itemgetter(0) / operator.itemgetter(0)"""
+    if isinstance(key, ast.Lambda) and len(key.args.args) == 1:
+        a = key.args.args[0].arg
+        b = key.body
+        return isinstance(b, ast.Subscript) and astx.is_name(b.value, a) and astx.is_const(b.slice, 0)
+    if isinstance(key, ast.Call) and astx.u(key.func) in ("itemgetter", "operator.itemgetter") and len(key.args) == 1 and astx.is_const(key.args[0], 0):
+        return True
+    return False
